@@ -475,6 +475,9 @@ func (c *compiler) compileQueryUpdate(l, r *Query, op Operator) error {
 	case OpAssign:
 		// optimize assignment operator with constant indexing and slicing
 		//   .foo.[0].[1:2] = f => setpath(["foo",0,{"start":1,"end":2}]; f)
+		if verifOptOff(verifOptConstSetpath) {
+			return c.compileFunc(&Func{Name: op.getFunc(), Args: []*Query{l, r}})
+		}
 		if xs := l.toIndices(nil); xs != nil {
 			// ref: compileCall
 			v := c.newVariable()
@@ -559,6 +562,10 @@ func (c *compiler) compileBind(l, r *Query, patterns []*Pattern) error {
 	}
 	if len(patterns) > 1 {
 		pc = len(c.codes)
+	}
+	if verifOptOff(verifOptBindExpbegin) {
+		c.append(&code{op: opexpend})
+		return c.compileQuery(r)
 	}
 	if len(patterns) == 1 && c.codes[len(c.codes)-2].op == opexpbegin {
 		c.codes[len(c.codes)-2].op = opnop
@@ -645,6 +652,9 @@ func (c *compiler) compileIf(e *If) error {
 		return err
 	}
 	f()
+	if verifOptOff(verifOptIfExpbegin) && pc == len(c.codes) {
+		c.append(&code{op: opnop})
+	}
 	if pc == len(c.codes) {
 		c.codes = c.codes[:pc-1]
 	} else {
@@ -672,6 +682,9 @@ func (c *compiler) compileIf(e *If) error {
 			// optimize constant results
 			//    opdup, ..., opjumpifnot, opconst, opjump, opconst
 			// => opnop, ..., opjumpifnot, oppush,  opjump, oppush
+			if verifOptOff(verifOptIfConstBranches) {
+				return
+			}
 			if pcc+4 == len(c.codes) &&
 				c.codes[pcc+1] != nil && c.codes[pcc+1].op == opconst &&
 				c.codes[pcc+3] != nil && c.codes[pcc+3].op == opconst {
@@ -857,6 +870,7 @@ func (c *compiler) compileTerm(e *Term) error {
 }
 
 func (c *compiler) compileIndex(e *Term, x *Index) error {
+	x = verifIndexDeopt(x)
 	if k := x.toIndexKey(); k != nil {
 		if err := c.compileTerm(e); err != nil {
 			return err
@@ -1308,6 +1322,9 @@ func (c *compiler) compileObject(e *Object) error {
 		}
 	}
 	c.append(&code{op: opobject, v: len(e.KeyVals)})
+	if verifOptOff(verifOptConstObject) {
+		return nil
+	}
 	// optimize constant objects
 	l := len(e.KeyVals)
 	if pc+l*3+1 != len(c.codes) {
@@ -1408,6 +1425,9 @@ func (c *compiler) compileArray(e *Array) error {
 	if e.Query.Op == OpPipe {
 		return nil
 	}
+	if verifOptOff(verifOptConstArray) {
+		return nil
+	}
 	// optimize constant arrays
 	if (len(c.codes)-pc)%3 != 0 {
 		return nil
@@ -1431,6 +1451,9 @@ func (c *compiler) compileArray(e *Array) error {
 
 func (c *compiler) compileUnary(e *Unary) error {
 	c.appendCodeInfo(e)
+	if verifOptOff(verifOptUnaryLiteral) {
+		return c.verifCompileUnarySlow(e)
+	}
 	if v := e.toNumber(); v != nil {
 		c.append(&code{op: opconst, v: v})
 		return nil
@@ -1584,6 +1607,10 @@ func (c *compiler) compileCallInternal(
 		if err := c.compileFuncDef(&FuncDef{Name: name, Body: args[i]}, false); err != nil {
 			return err
 		}
+		if internal && verifNoInline(len(c.codes)-pc) {
+			c.appends(&code{op: opload, v: v}, &code{op: oppushpc, v: pc}, &code{op: opcallpc})
+			goto verifInlined
+		}
 		if internal {
 			switch len(c.codes) - pc {
 			case 2: // optimize identity argument (opscope, opret)
@@ -1614,7 +1641,11 @@ func (c *compiler) compileCallInternal(
 		} else {
 			c.append(&code{op: oppushpc, v: pc})
 		}
+	verifInlined:
 		if i == indexing {
+			if verifOptOff(verifOptIndexExpbegin) && c.codes[len(c.codes)-2].op == opexpbegin {
+				c.append(&code{op: opnop})
+			}
 			if c.codes[len(c.codes)-2].op == opexpbegin {
 				c.codes[len(c.codes)-2] = c.codes[len(c.codes)-1]
 				c.codes = c.codes[:len(c.codes)-1]
@@ -1647,6 +1678,9 @@ func (c *compiler) lazy(f func() *code) func() {
 }
 
 func (c *compiler) optimizeTailRec() {
+	if verifOptOff(verifOptTailRec) {
+		return
+	}
 	var pcs []int
 	scopes := map[int]bool{}
 L:
@@ -1691,6 +1725,9 @@ L:
 }
 
 func (c *compiler) optimizeCodeOps() {
+	if verifOptOff(verifOptCodeOps) {
+		return
+	}
 	for i, next := len(c.codes)-1, (*code)(nil); i >= 0; i-- {
 		code := c.codes[i]
 		switch code.op {
